@@ -33,19 +33,48 @@ BUDGET = {
     "quick": dict(examples=1000, shards=16, seconds=200),
     "thorough": dict(examples=10000, shards=16, seconds=2400),
 }
-ESSENTIAL_LABELS = {t: ["tie:same-first-child", "factors>=3", "has:frac", "mixed-P-PP"] for t in ("quick", "thorough")}
+ESSENTIAL_LABELS = {t: ["tie:same-first-child", "factors>=3", "has:frac", "mixed-P-PP", "compound-fraction-that-cancels"] for t in ("quick", "thorough")}
 
 
 @st.composite
 def _case(draw):
     depth = draw(st.sampled_from([1, 2, 2, 3, 3, 4]))
-    spec = draw(exprgen.expr_specs(depth=depth, zero=draw(st.integers(0, 3)) == 0))
+    spec = draw(exprgen.expr_specs(depth=depth, zero=draw(st.integers(0, 3)) == 0, mixed_worlds=True))
     order = draw(st.one_of(st.none(), st.permutations(DEFAULT_NAMES).map(list)))
     return {"spec": spec, "order": order, "perm": draw(st.integers(0, 2**32))}
 
 
+@st.composite
+def _cancelling_case(draw):
+    """Compound fractions built with the constructors (not with '/'), whose parts cancel exactly only after the
+    fraction has been re-arranged: (y*z*w / y) / z, (y*z / z) / y, y*z / (y / (1/z)), ..."""
+    small = lambda: exprgen.expr_specs(depth=draw(st.sampled_from([0, 0, 1])), zero=False, mixed_worlds=True)  # noqa: E731
+    y, z = draw(small()), draw(small())
+    extra = [draw(small())] if draw(st.booleans()) else []
+    rng = SplitMix(draw(st.integers(0, 2**32)))
+    mk = lambda xs: xs[0] if len(xs) == 1 else {"t": "prod", "xs": xs}  # noqa: E731
+    x = mk(rng.shuffle([exprgen.permute_presentation(y, rng), exprgen.permute_presentation(z, rng), *extra]))
+    one = {"t": "one"}
+    forms = [
+        {"t": "frac", "n": {"t": "frac", "n": x, "d": y}, "d": z},
+        {"t": "frac", "n": {"t": "frac", "n": x, "d": z}, "d": y},
+        {"t": "frac", "n": x, "d": {"t": "frac", "n": y, "d": {"t": "frac", "n": one, "d": z}}},
+        {"t": "frac", "n": {"t": "frac", "n": x, "d": y}, "d": {"t": "frac", "n": z, "d": one}},
+        {"t": "frac", "n": {"t": "frac", "n": {"t": "frac", "n": x, "d": one}, "d": y}, "d": z},
+        {"t": "frac", "n": x, "d": {"t": "prod", "xs": [y, z]}},
+    ]
+    spec = forms[draw(st.integers(0, len(forms) - 1))]
+    wrap = draw(st.integers(0, 3))
+    if wrap == 1:
+        spec = {"t": "sum", "rs": [draw(st.sampled_from(DEFAULT_NAMES))], "x": spec}
+    elif wrap == 2:
+        spec = {"t": "prod", "xs": [spec, draw(small())]}
+    order = draw(st.one_of(st.none(), st.permutations(DEFAULT_NAMES).map(list)))
+    return {"spec": spec, "order": order, "perm": draw(st.integers(0, 2**32)), "cancelling": True}
+
+
 def strategy(tier):
-    return _case()
+    return st.one_of(_case(), _case(), _case(), _cancelling_case())
 
 
 def _first_children(s, acc):
@@ -74,6 +103,8 @@ def check(case) -> Outcome:
     out = Outcome(key=str(spec) + str(case["order"]))
     labels = {"has:" + k for k in kinds(spec)}
     _first_children(spec, labels)
+    if case.get("cancelling"):
+        labels.add("compound-fraction-that-cancels")
     e = exprgen.build_raw(spec)
     order = None if case["order"] is None else [Variable(n) for n in case["order"]]
 
